@@ -14,6 +14,7 @@ CONSTANTS
  LockDel = TRUE
  LockDelEarly = TRUE
  ObsFilters = {"none", "t1", "x"}
+ ListConc = FALSE
  CowIndex = TRUE
 INIT MInit
 NEXT MNext
